@@ -64,7 +64,7 @@ Section Loop.
     intros Hd. unfold gmp.
     replace (length (x0 :: g) * dim)%nat with (length g + (length (x0 :: g) * dim - length g))%nat
       by (simpl; nia).
-    rewrite fori_split. pose proof (fori_full drift g [] x0 0%nat eq_refl) as E. simpl app in E.
+    rewrite fori_split. pose proof (fori_full drift g [] x0 0%nat eq_refl) as E. change ([] ++ x0 :: g) with (x0 :: g) in E. change ([] ++ recursion drift 0 x0 g) with (recursion drift 0 x0 g) in E.
     rewrite E. apply fori_overrun. rewrite recursion_length. lia.
   Qed.
 
@@ -93,3 +93,335 @@ Section Loop.
     apply IH; [rewrite app_length; simpl; lia | lia].
   Qed.
 End Loop.
+
+Arguments lrec {V D} vadd app x ds gs.
+
+(* ------------------------------------------------------------------ Wiener process *)
+Definition lrec1 := @lrec Qc Qc Qcplus Qcmult.
+Definition lrec2 := @lrec (Qc * Qc) mat vadd2 mv.
+
+Lemma cumsum_from_lrec gs : forall acc,
+  acc :: cumsum_from acc gs = lrec1 acc (repeat 1 (length gs)) gs.
+Proof.
+  induction gs as [|g gs IH]; intros acc; simpl; [reflexivity|].
+  f_equal. rewrite IH. f_equal. ring.
+Qed.
+
+Lemma cumsum_cons x l : cumsum (x :: l) = x :: cumsum_from x l.
+Proof. unfold cumsum. simpl. replace (0 + x) with x by ring. reflexivity. Qed.
+
+Lemma map2_length {A B C} (f : A -> B -> C) a b : length (map2 f a b) = Nat.min (length a) (length b).
+Proof. revert b. induction a as [|x a IH]; intros [|y b]; simpl; auto. Qed.
+
+(* the cumsum formulation IS the recursion x_{k+1} = x_k + s_k sigma_k xi_k, for every number of
+   steps and every (non-uniform) grid / time-varying sigma *)
+Theorem wiener_is_recursion xi x0 sigma s :
+  wiener xi x0 sigma s =
+  lrec1 x0 (repeat 1 (length (map2 Qcmult (map2 Qcmult s sigma) xi))) (map2 Qcmult (map2 Qcmult s sigma) xi).
+Proof. unfold wiener. rewrite cumsum_cons. apply cumsum_from_lrec. Qed.
+
+(* the generic scalar generator with drift 1 and the same amplitudes reproduces it *)
+Theorem gmp1_is_lrec drift amp xi x0 :
+  length drift = length (map2 Qcmult amp xi) ->
+  gmp1 drift amp xi x0 = lrec1 x0 drift (map2 Qcmult amp xi).
+Proof.
+  intros H. unfold gmp1. rewrite gmp_is_recursion by lia.
+  apply (recursion_lrec Qc Qc Qcplus Qcmult (last drift 0) drift _ 0%nat x0 []); auto.
+Qed.
+
+Theorem wiener_generic_agree xi x0 sigma s :
+  wiener xi x0 sigma s =
+  gmp1 (repeat 1 (length (map2 Qcmult (map2 Qcmult s sigma) xi))) (map2 Qcmult s sigma) xi x0.
+Proof. rewrite gmp1_is_lrec by apply repeat_length. apply wiener_is_recursion. Qed.
+
+(* ------------------------------------------------------------------ integrated Wiener process *)
+(* the increments (a_k, b_k) the vectorised code builds in L1-L3 *)
+Definition iwp_incr (sigma s dt r : Qc) (xi : Qc * Qc) : Qc * Qc :=
+  (sigma * s * fst xi * r + half * dt * (sigma * s * snd xi), sigma * s * snd xi).
+
+Lemma iwp_incr_is_amp sigma s dt r xi : iwp_incr sigma s dt r xi = mv (iwp_amp sigma s dt r) xi.
+Proof. unfold iwp_incr, mv, iwp_amp. simpl. f_equal; ring. Qed.
+
+Lemma removelast_cons {A} (x : A) l : l <> [] -> removelast (x :: l) = x :: removelast l.
+Proof. destruct l; [congruence | reflexivity]. Qed.
+
+Lemma iwp_step a b d x v : vadd2 (a, b) (mv (iwp_drift d) (x, v)) = (x + (a + d * v), v + b).
+Proof. unfold vadd2, mv, iwp_drift. cbn [fst snd]. f_equal; ring. Qed.
+
+(* L4-L7 on given increment columns: the two cumsums with the shifted velocity coupling are the
+   recursion with F_k = [[1, dt_k], [0, 1]] *)
+Lemma iwp_cumsum_is_recursion aa : forall dts bb x v,
+  length dts = length aa -> length bb = length aa ->
+  combine (x :: cumsum_from x (map3 (fun a d vv => a + d * vv) aa dts (removelast (v :: cumsum_from v bb))))
+          (v :: cumsum_from v bb)
+  = lrec2 (x, v) (map iwp_drift dts) (combine aa bb).
+Proof.
+  induction aa as [|a aa IH]; intros [|d dts] [|b bb] x v H1 H2; simpl in *; try lia; try reflexivity.
+  f_equal.
+  assert (E : removelast (v + b :: cumsum_from (v + b) bb) = removelast ((v + b) :: cumsum_from (v + b) bb)) by reflexivity.
+  specialize (IH dts bb (x + (a + d * v)) (v + b) ltac:(lia) ltac:(lia)).
+  unfold lrec2 in *. cbn [lrec]. rewrite iwp_step. rewrite <- IH. reflexivity.
+Qed.
+
+Lemma map3_length {A B C D} (f : A -> B -> C -> D) a b c :
+  length (map3 f a b c) = Nat.min (length a) (Nat.min (length b) (length c)).
+Proof. revert b c. induction a as [|x a IH]; intros [|y b] [|z c]; simpl; auto. Qed.
+
+Lemma map2_map_l {A B C D} (f : B -> C -> D) (g : A -> B) l1 l2 :
+  map2 f (map g l1) l2 = map2 (fun a c => f (g a) c) l1 l2.
+Proof. revert l2. induction l1; intros [|]; simpl; auto. f_equal. auto. Qed.
+
+Theorem iwp_is_recursion xi x0 sigma s dt r :
+  length sigma = length xi -> length s = length xi -> length dt = length xi -> length r = length xi ->
+  iwp xi x0 sigma s dt r =
+  lrec2 x0 (map iwp_drift dt)
+        (map2 (fun p x => mv (iwp_amp (fst (fst p)) (snd (fst p)) (fst (snd p)) (snd (snd p))) x)
+              (combine (combine sigma s) (combine dt r)) xi).
+Proof.
+  revert x0. intros [x v] Hs Hss Hd Hr. unfold iwp. cbn [fst snd].
+  rewrite !cumsum_cons.
+  set (f := map2 Qcmult sigma s).
+  set (bb := map2 Qcmult f (map snd xi)).
+  set (aa := map3 (fun a d b => a + half * d * b) (map2 Qcmult (map2 Qcmult f (map fst xi)) r) dt bb).
+  assert (Lbb : length bb = length xi).
+  { subst bb f. rewrite !map2_length, map_length. lia. }
+  assert (Laa : length aa = length xi).
+  { subst aa bb f. rewrite map3_length, !map2_length, !map_length. lia. }
+  rewrite iwp_cumsum_is_recursion by lia.
+  f_equal.
+  (* the increment pairs are G_k xi_k *)
+  subst aa bb f. clear Lbb Laa.
+  revert sigma s dt r Hs Hss Hd Hr. induction xi as [|p xi IH]; intros [|a1 sigma] [|a2 s] [|a3 dt] [|a4 r] H1 H2 H3 H4;
+    simpl in *; try lia; try reflexivity.
+  f_equal; [|apply IH; lia].
+  rewrite <- iwp_incr_is_amp. unfold iwp_incr. f_equal; ring.
+Qed.
+
+(* ------------------------------------------------------------------ IWP: transition covariance,
+   semigroup, marginal covariance on every (non-uniform) grid *)
+
+Lemma half_half : half + half = 1.
+Proof. apply Qc_is_canon. reflexivity. Qed.
+Lemma third_3 : third + third + third = 1.
+Proof. apply Qc_is_canon. reflexivity. Qed.
+Lemma twelfth_quarter : twelfth + half * half = third.
+Proof. apply Qc_is_canon. reflexivity. Qed.
+
+(* with s^2 = dt and r^2 = dt^2/12 + asperity the amplitude matrix of the code has exactly the
+   transition covariance of the (generalised) integrated Wiener process over a step dt *)
+Theorem iwp_transition sigma s dt r asp :
+  s * s = dt -> r * r = dt * dt * twelfth + asp ->
+  ggt (iwp_amp sigma s dt r) = iwp_Q sigma asp dt.
+Proof.
+  intros Hs Hr. unfold ggt, iwp_amp, iwp_Q. fold third.
+  f_equal; [f_equal|].
+  - transitivity (sigma * sigma * (s * s) * (r * r) + sigma * sigma * (s * s) * (half * half) * (dt * dt)); [ring|].
+    rewrite Hs, Hr. rewrite <- twelfth_quarter. ring.
+  - transitivity (sigma * sigma * (s * s) * (half * dt)); [ring|]. rewrite Hs. ring.
+  - transitivity (sigma * sigma * (s * s)); [ring|]. rewrite Hs. ring.
+Qed.
+
+Lemma half_inv : half = / (1 + 1).
+Proof. apply Qc_is_canon. reflexivity. Qed.
+Lemma third_inv : third = / (1 + 1 + 1).
+Proof. apply Qc_is_canon. reflexivity. Qed.
+Lemma twelfth_inv : twelfth = / ((1 + 1 + 1) * (1 + 1) * (1 + 1)).
+Proof. apply Qc_is_canon. reflexivity. Qed.
+Lemma two_neq0 : (1 + 1 : Qc) <> 0.
+Proof. discriminate. Qed.
+Lemma three_neq0 : (1 + 1 + 1 : Qc) <> 0.
+Proof. discriminate. Qed.
+
+Ltac qc_field := unfold iwp_Q, iwp_propagate, ggt, iwp_amp; fold third; fold twelfth;
+  rewrite ?half_inv, ?third_inv, ?twelfth_inv; field; repeat split; discriminate.
+
+(* Q(d1 + d2) = F(d2) Q(d1) F(d2)^T + Q(d2): two steps are one step over the joint interval *)
+Theorem iwp_semigroup sigma asp d1 d2 :
+  iwp_propagate d2 (iwp_Q sigma asp d1) (iwp_Q sigma asp d2) = iwp_Q sigma asp (d1 + d2).
+Proof.
+  unfold iwp_propagate, iwp_Q. fold third. rewrite half_inv, third_inv.
+  f_equal; [f_equal|]; field; repeat split; discriminate.
+Qed.
+
+(* hence the marginal covariance of the state after any sequence of steps is the closed form
+   Q(t) of the continuous-time process at the accumulated time (P_0 = Q(t0), t0 = 0 for a fixed start) *)
+Theorem iwp_marginals_closed sigma asp dts : forall t,
+  iwp_marginals sigma asp dts (iwp_Q sigma asp t) = map (iwp_Q sigma asp) (times_from t dts).
+Proof.
+  induction dts as [|d dts IH]; intros t; cbn [iwp_marginals times_from map]; [reflexivity|].
+  f_equal. rewrite iwp_semigroup. apply IH.
+Qed.
+
+(* response columns: the state after k steps as a linear function of the unit excitations; each
+   column is the response (position, velocity) to one scalar excitation.  One step maps the columns
+   by F and appends the two columns of G. *)
+Lemma colsum_app c1 c2 :
+  colsum (c1 ++ c2) = let '(p, q, w) := colsum c1 in let '(p', q', w') := colsum c2 in (p + p', q + q', w + w').
+Proof.
+  induction c1 as [|[a b] c1 IH]; simpl.
+  - destruct (colsum c2) as [[p q] w]. repeat (f_equal; try ring).
+  - rewrite IH. destruct (colsum c1) as [[p q] w]. destruct (colsum c2) as [[p' q'] w']. repeat (f_equal; try ring).
+Qed.
+
+Lemma colsum_map_drift dt cols :
+  colsum (map (mv (iwp_drift dt)) cols) =
+  let '(p00, p01, p11) := colsum cols in (p00 + dt * p01 + dt * (p01 + dt * p11), p01 + dt * p11, p11).
+Proof.
+  induction cols as [|[a b] cols IH]; simpl.
+  - repeat (f_equal; try ring).
+  - rewrite IH. destruct (colsum cols) as [[p q] w]. unfold mv, iwp_drift. cbn [fst snd].
+    repeat (f_equal; try ring).
+Qed.
+
+(* covariance (sum over the unit excitations of response x response^T) propagates as
+   F P F^T + G G^T *)
+Theorem iwp_cov_propagation dt G cols :
+  colsum (cols_step (iwp_drift dt) G cols) = iwp_propagate dt (colsum cols) (ggt G).
+Proof.
+  unfold cols_step. rewrite colsum_app, colsum_map_drift.
+  destruct (colsum cols) as [[p q] w]. destruct G as [[a b] [c d]]. cbn [fst snd colsum ggt iwp_propagate].
+  repeat (f_equal; try ring).
+Qed.
+
+(* ------------------------------------------------------------------ scalar processes: exact
+   covariances from the linearity in the excitations *)
+(* coefficient row of x_k with respect to the excitations seen so far; one step scales the row by
+   the drift and appends the amplitude *)
+Lemma dot_app a1 a2 b1 b2 : length a1 = length b1 -> dot (a1 ++ a2) (b1 ++ b2) = dot a1 b1 + dot a2 b2.
+Proof.
+  revert b1. induction a1 as [|x a1 IH]; intros [|y b1] H; simpl in *; try lia; [ring|].
+  rewrite IH by lia. ring.
+Qed.
+
+Lemma dot_nil_r a : dot a [] = 0.
+Proof. destruct a; reflexivity. Qed.
+
+Lemma dot_scale d r p : dot (map (Qcmult d) r) p = d * dot r p.
+Proof. revert p. induction r as [|x r IH]; intros [|y p]; simpl; try ring. rewrite IH. ring. Qed.
+
+Lemma dot_comm a b : dot a b = dot b a.
+Proof. revert b. induction a as [|x a IH]; intros [|y b]; simpl; try reflexivity. rewrite IH. ring. Qed.
+
+Lemma dot_short l m r : (length r <= length l)%nat -> dot (l ++ m) r = dot l r.
+Proof.
+  revert r. induction l as [|x l IH]; intros [|y r] H; simpl in *; try lia; try reflexivity.
+  - apply dot_nil_r.
+  - rewrite IH by lia. reflexivity.
+Qed.
+
+(* the recursion is linear: x_k = <row_k, (excitations)> *)
+Theorem scalar_linear ds : forall row pre amps xis,
+  length row = length pre -> length amps = length ds -> length xis = length ds ->
+  lrec1 (dot row pre) ds (map2 Qcmult amps xis) = map (fun r => dot r (pre ++ xis)) (srows row ds amps).
+Proof.
+  induction ds as [|d ds IH]; intros row pre [|a amps] [|x xis] H1 H2 H3; simpl in *; try lia.
+  - rewrite app_nil_r. reflexivity.
+  - assert (E0 : dot row (pre ++ x :: xis) = dot row pre).
+    { rewrite <- (app_nil_r row) at 1. rewrite dot_app by assumption. simpl. ring. }
+    rewrite E0. f_equal.
+    replace (pre ++ x :: xis) with ((pre ++ [x]) ++ xis) by (rewrite <- app_assoc; reflexivity).
+    unfold lrec1 in IH. rewrite <- IH; try lia.
+    + unfold lrec1. f_equal. rewrite dot_app by (rewrite map_length; assumption). rewrite dot_scale. simpl. ring.
+    + rewrite !app_length, map_length. simpl. lia.
+Qed.
+
+Lemma var_step d a row :
+  dot (map (Qcmult d) row ++ [a]) (map (Qcmult d) row ++ [a]) = d * d * dot row row + a * a.
+Proof.
+  rewrite dot_app by reflexivity. rewrite dot_scale, (dot_comm row), dot_scale. simpl. ring.
+Qed.
+
+Lemma cov_step d a row r0 :
+  (length r0 <= length row)%nat -> dot (map (Qcmult d) row ++ [a]) r0 = d * dot row r0.
+Proof. intros H. rewrite dot_short by (rewrite map_length; assumption). apply dot_scale. Qed.
+
+(* covariances of an earlier state with all later ones decay by the drifts in between *)
+Theorem cov_decay ds : forall row amps r0,
+  (length r0 <= length row)%nat ->
+  map (fun r => dot r r0) (srows row ds amps) = decays (dot row r0) ds amps.
+Proof.
+  induction ds as [|d ds IH]; intros row [|a amps] r0 H; simpl; try reflexivity.
+  f_equal. rewrite IH by (rewrite app_length, map_length; simpl; lia).
+  rewrite cov_step by assumption. reflexivity.
+Qed.
+
+(* Ornstein-Uhlenbeck: with amp_k^2 = sigma^2 (1 - e_k^2) the variance sigma^2 is invariant *)
+Theorem ou_stationary sigma ds : forall row amps,
+  dot row row = sigma * sigma ->
+  Forall2 (fun d a => a * a = sigma * sigma * (1 - d * d)) ds amps ->
+  Forall (fun r => dot r r = sigma * sigma) (srows row ds amps).
+Proof.
+  induction ds as [|d ds IH]; intros row amps H F; inversion F; subst; simpl.
+  - constructor; [assumption | constructor].
+  - constructor; [assumption|]. apply IH; [|assumption].
+    rewrite var_step, H. match goal with E : _ * _ = _ |- _ => rewrite E end. ring.
+Qed.
+
+(* Wiener (drift 1): the variances are the running sums of amp_k^2 = sigma_k^2 dt_k *)
+Theorem wiener_variances amps : forall row qs,
+  Forall2 (fun a q => a * a = q) amps qs ->
+  map (fun r => dot r r) (srows row (repeat 1 (length amps)) amps) = times_from (dot row row) qs.
+Proof.
+  induction amps as [|a amps IH]; intros row qs F; inversion F as [|a' q amps' qs' Ha HF]; subst; simpl; [reflexivity|].
+  f_equal. rewrite (IH _ qs') by assumption. rewrite var_step. f_equal. ring.
+Qed.
+
+Lemma decays_ones c amps : decays c (repeat 1 (length amps)) amps = repeat c (S (length amps)).
+Proof.
+  revert c. induction amps as [|a amps IH]; intros c; simpl; [reflexivity|].
+  f_equal. rewrite IH. replace (1 * c) with c by ring. reflexivity.
+Qed.
+
+(* ... and Cov(x_i, x_j) = Var(x_min(i,j)): the covariance of a state with every later one is its
+   own variance *)
+Theorem wiener_cov_min amps row :
+  map (fun r => dot r row) (srows row (repeat 1 (length amps)) amps) = repeat (dot row row) (S (length amps)).
+Proof. rewrite cov_decay by lia. apply decays_ones. Qed.
+
+(* constant sigma: running sums of sigma^2 dt_k are sigma^2 t_k *)
+Lemma times_scale c dts : forall t,
+  times_from (c * t) (map (Qcmult c) dts) = map (Qcmult c) (times_from t dts).
+Proof.
+  induction dts as [|d dts IH]; intros t; simpl; [reflexivity|].
+  f_equal. rewrite <- IH. f_equal. ring.
+Qed.
+
+Theorem gmp2_is_lrec drift diffamp xi x0 :
+  length drift = length (map2 mv diffamp xi) ->
+  gmp2 drift diffamp xi x0 = lrec2 x0 drift (map2 mv diffamp xi).
+Proof.
+  intros H. unfold gmp2. rewrite gmp_is_recursion by lia.
+  apply (recursion_lrec (Qc * Qc) mat vadd2 mv (last drift mat0) drift _ 0%nat x0 []); auto.
+Qed.
+
+Lemma map2_combine4 sigma s dt r xi :
+  length sigma = length xi -> length s = length xi -> length dt = length xi -> length r = length xi ->
+  map2 (fun p x => mv (iwp_amp (fst (fst p)) (snd (fst p)) (fst (snd p)) (snd (snd p))) x)
+       (combine (combine sigma s) (combine dt r)) xi
+  = map2 mv (map (fun p => iwp_amp (fst (fst p)) (snd (fst p)) (fst (snd p)) (snd (snd p)))
+                 (combine (combine sigma s) (combine dt r))) xi.
+Proof. intros. rewrite map2_map_l. reflexivity. Qed.
+
+(* the generic generator with F_k = [[1, dt_k], [0, 1]] and the amplitude matrices G_k reproduces
+   the vectorised integrated Wiener process *)
+Theorem iwp_generic_agree xi x0 sigma s dt r :
+  length sigma = length xi -> length s = length xi -> length dt = length xi -> length r = length xi ->
+  iwp xi x0 sigma s dt r = gmp2 (map iwp_drift dt) (iwp_amps sigma s dt r) xi x0.
+Proof.
+  intros H1 H2 H3 H4. rewrite iwp_is_recursion by assumption. rewrite map2_combine4 by assumption.
+  rewrite gmp2_is_lrec; [reflexivity|].
+  unfold iwp_amps. rewrite map_length, map2_length, map_length, !combine_length. lia.
+Qed.
+
+Theorem ou_is_recursion xi x0 sigma e q :
+  length e = length (map2 Qcmult (map2 Qcmult sigma q) xi) ->
+  ou xi x0 sigma e q = lrec1 x0 e (map2 Qcmult (map2 Qcmult sigma q) xi).
+Proof. intros H. unfold ou. apply gmp1_is_lrec. assumption. Qed.
+
+(* two OU steps with drifts e1, e2 are one step with drift e1 e2 (e(dt1 + dt2) = e(dt1) e(dt2)) *)
+Theorem ou_semigroup sigma e1 e2 a1 a2 :
+  a1 * a1 = sigma * sigma * (1 - e1 * e1) -> a2 * a2 = sigma * sigma * (1 - e2 * e2) ->
+  (e2 * a1) * (e2 * a1) + a2 * a2 = sigma * sigma * (1 - (e1 * e2) * (e1 * e2)).
+Proof.
+  intros H1 H2. transitivity (e2 * e2 * (a1 * a1) + a2 * a2); [ring|]. rewrite H1, H2. ring.
+Qed.
